@@ -248,6 +248,8 @@ func c09Run(run *ev.Run) {
 		{Store: "memory", Forward: true, Logout: true},
 		{Store: "redis", Forward: true, Logout: true},
 		{Store: "redis", Forward: true, Logout: true, Replicas: 2},
+		{Store: "memory", Forward: true, Logout: true, CookiePrefix: "app1"},
+		{Store: "redis", Forward: true, Logout: true, CookiePrefix: "app1"},
 		{Store: "memory", Forward: true, Logout: true, Discovery: true},
 		{Store: "memory", Forward: true, Logout: true, Discovery: true, NoLogoutRedirect: true},
 	} {
